@@ -85,7 +85,7 @@ def run(ctx):
         # ... and the guard is moved into the closure's frame (dropped when the task ends)
     c = ctx.anchor("<lumina_node::store::redb_store::RedbStore as lumina_node::store::Store>::close")
     if c:
-        require_guard(ctx, c, Has("call:*Future::poll", "call:" + CN + "Counter::wait_guards", name="close returns only after wait_guards completed"), "C41.close.waits")
+        require_guard(ctx, c, Has("call:*Future::poll", "call:" + CN + "Counter::wait_guards", name="close returns only after wait_guards completed", awaits=True), "C41.close.waits")
         fm = ctx.facts.fn_meta("<lumina_node::store::redb_store::RedbStore as lumina_node::store::Store>::close")
         ok = fm is not None and "(lumina_node::store::redb_store::RedbStore)" in fm["sig"].replace("[", "(").replace("]", ")").split("->")[0]
         ctx.check(ok, "C41.close.by-value", c.path, "close(self) consumes the store (no further tasks can be started on it)", key="C41.close.by-value", detail=fm["sig"] if fm else None)
